@@ -11,9 +11,10 @@ import (
 	ds "github.com/ipfs/go-datastore"
 	query "github.com/ipfs/go-datastore/query"
 	goprocess "github.com/jbenet/goprocess"
+	peer "github.com/libp2p/go-libp2p-core/peer"
 )
 
-var vrfEntries = map[string]func(){"VrfC01Snapshot": VrfC01Snapshot}
+var vrfEntries = map[string]func(){"VrfC01Snapshot": VrfC01Snapshot, "VrfC01StateOps": VrfC01StateOps}
 
 func vrfCid(i int) cid.Cid {
 	c, _ := cid.Decode([]string{
@@ -156,4 +157,88 @@ func VrfC01Snapshot() {
 		}
 	}
 	vrf_reach("C01.snapshot.end")
+}
+
+func vrfPeer(i int) peer.ID {
+	p, _ := peer.Decode([]string{"QmZHKZDavkvNfA9gSAg7HALv8jF7BJaKjUc9U2LSuvUySB", "QmP63DkAFEnDYNjDYBpyNDfttu1fvUw99x1brscPzpqmmq"}[i])
+	return p
+}
+
+// vrfFullPin: a pin whose stored fields all vary (also those that api.Pin.Equals
+// treats as irrelevant: the order of the allocations, the update source).
+func vrfFullPin(i int) *api.Pin {
+	p := vrfPin(i, "op")
+	switch vrf_choice("allocations", 3) {
+	case 1:
+		p.Allocations = append(p.Allocations, vrfPeer(0), vrfPeer(1))
+	case 2:
+		p.Allocations = append(p.Allocations, vrfPeer(1), vrfPeer(0))
+	}
+	if vrf_choice("has_update_source", 2) == 1 {
+		p.PinUpdate = vrfCid(2)
+	}
+	if vrf_choice("direct", 2) == 1 {
+		p.Mode, p.MaxDepth = api.PinModeDirect, 0
+	}
+	return p
+}
+
+func vrfSamePin(a, b *api.Pin) bool {
+	if a == nil || b == nil {
+		return a == b
+	}
+	if !a.Cid.Equals(b.Cid) || !a.PinUpdate.Equals(b.PinUpdate) || len(a.Allocations) != len(b.Allocations) || a.Mode != b.Mode || a.MaxDepth != b.MaxDepth {
+		return false
+	}
+	for i := range a.Allocations {
+		if a.Allocations[i] != b.Allocations[i] {
+			return false
+		}
+	}
+	return vrf_and(a.Name == b.Name, vrf_and(a.ReplicationFactorMin == b.ReplicationFactorMin, a.ReplicationFactorMax == b.ReplicationFactorMax))
+}
+
+// VrfC01StateOps: the replicated state machine's store. After any sequence of
+// Add / Rm over two CIDs the real dsstate.State holds, for each CID, exactly the
+// pin of the last Add (every stored field, not an "equivalent" pin), or nothing
+// after an Rm: "pin inserts or replaces the entry for its CID, unpin deletes it".
+func VrfC01StateOps() {
+	ctx := context.Background()
+	st, _ := New(&vrfDS{}, "", nil)
+	var want [2]*api.Pin
+	k := vrf_param("ops")
+	for e := 0; e < k; e++ {
+		i := vrf_choice("cid", 2)
+		if vrf_choice("unpin", 2) == 1 {
+			vrf_assert(st.Rm(ctx, vrfCid(i)) == nil, "C01.state.rm-ok")
+			want[i] = nil
+		} else {
+			p := vrfFullPin(i)
+			vrf_assert(st.Add(ctx, p) == nil, "C01.state.add-ok")
+			want[i] = p
+		}
+	}
+	list, err := st.List(ctx)
+	vrf_assert(err == nil, "C01.state.list-ok")
+	for i := 0; i < 2; i++ {
+		got, gerr := st.Get(ctx, vrfCid(i))
+		has, herr := st.Has(ctx, vrfCid(i))
+		vrf_assert(herr == nil && has == (want[i] != nil), "C01.state.has")
+		n := 0
+		for _, p := range list {
+			if p.Cid.Equals(vrfCid(i)) {
+				n++
+				vrf_assert(vrfSamePin(p, want[i]), "C01.state.list-is-last-write")
+			}
+		}
+		if want[i] == nil {
+			vrf_assert(gerr != nil && n == 0, "C01.state.deleted")
+			continue
+		}
+		vrf_assert(gerr == nil && n == 1, "C01.state.present-once")
+		if gerr == nil {
+			vrf_assert(vrfSamePin(got, want[i]), "C01.state.get-is-last-write")
+		}
+	}
+	vrf_reach("C01.state.end")
 }
